@@ -276,3 +276,60 @@ def _bind(target, value, env):
 
 def loc(mod, node):
     return '%s:%d' % (mod.relpath, getattr(node, 'lineno', 0))
+
+class ModuleFold:
+    """Constant folding of module-level initialisation code (assignments, for-loops over literal ranges,
+    subscript / slice stores into literal lists).  Used for tables that are built by loops rather than displays."""
+    def __init__(self, repo, modname):
+        self.repo, self.modname = repo, modname
+        self.env = {}
+
+    def run(self, stmts, wanted):
+        """Fold the module-level statements that define or update the names in `wanted`."""
+        for st in stmts:
+            names = {n.id for n in ast.walk(st) if isinstance(n, ast.Name)}
+            if isinstance(st, (ast.Assign, ast.For, ast.AugAssign)) and names & set(wanted):
+                self.stmt(st)
+        return {k: self.env.get(k) for k in wanted}
+
+    def lit(self):
+        return Lit(self.repo, self.modname, self.env)
+
+    def stmt(self, st):
+        if isinstance(st, ast.Assign):
+            v = self.lit().ev(st.value)
+            for tg in st.targets:
+                self.store(tg, v)
+        elif isinstance(st, ast.AugAssign):
+            cur = self.lit().ev(st.target)
+            v = _BIN[type(st.op)](cur, self.lit().ev(st.value))
+            self.store(st.target, v)
+        elif isinstance(st, ast.For):
+            for item in self.lit().ev(st.iter):
+                _bind(st.target, item, self.env)
+                for s in st.body:
+                    self.stmt(s)
+        elif isinstance(st, ast.If):
+            for s in (st.body if self.lit().ev(st.test) else st.orelse):
+                self.stmt(s)
+        elif isinstance(st, (ast.Pass, ast.Expr)):
+            pass
+        else:
+            raise NotLiteral('statement ' + type(st).__name__)
+
+    def store(self, tg, v):
+        if isinstance(tg, ast.Name):
+            self.env[tg.id] = v
+        elif isinstance(tg, ast.Subscript):
+            base = self.lit().ev(tg.value)
+            if isinstance(tg.slice, ast.Slice):
+                lo = self.lit().ev(tg.slice.lower) if tg.slice.lower else None
+                hi = self.lit().ev(tg.slice.upper) if tg.slice.upper else None
+                base[lo:hi] = v
+            else:
+                base[self.lit().ev(tg.slice)] = v
+        elif isinstance(tg, (ast.Tuple, ast.List)):
+            for t, x in zip(tg.elts, v):
+                self.store(t, x)
+        else:
+            raise NotLiteral('store target')
